@@ -2,7 +2,7 @@ CONSTANTS
   FB = 4
   MaxExtra = 2
   SmallVals <- SmallValsQuick
-  RealAxes <- RealAxesQuick
+  RealAxes <- RealAxesQuickW
   RealMaps <- RealMapsQuick
 SPECIFICATION Spec
 INVARIANTS DesignOK RealOK EmitCase EmitStat
